@@ -26,7 +26,7 @@ import run_c01  # noqa: E402
 
 def observe(m, args_by_entry, fuel=run_c01.FUEL):
     """-> list of (kind, detail) failures of module m on the given argument values"""
-    src = pp.pp_module(m)
+    src = pp.pp_modules(m)
     adts = M.adt_table(m.adts)
     ents = []
     exp = {}
@@ -98,7 +98,9 @@ def main():
 
     keep = target[2] if target[0] == "disagree" else None
     small = R.reduce_module(m, pred, keep_entry=keep, log=None, allow_hazard=a.allow_hazard)
-    print(pp.pp_module(small))
+    for x in pp.pp_modules(small):
+        print("// ---- module " + x["name"])
+        print(x["src"])
     fs = [f for f in observe(small, vals) if f[:2] == key]
     print("// failure:", fs[0])
     if target[0] == "disagree":
